@@ -139,6 +139,7 @@ class WorkCtx:
         self.uploads: List[dict] = []     # id -> {"filename","content_type","data","short"}
         self.allow_uploads = allow_uploads
         self.n_upload_refs = 0
+        self.containers: List[Any] = []      # dict/list nodes of the call being generated (may be referenced again)
 
     def upload_node(self):
         ch = self.ch
@@ -226,6 +227,9 @@ def gen_value(ctx: WorkCtx, depth: int, in_dict: bool = False):
             opts.append(("model", 3))
     if ctx.allow_uploads:
         opts.append(("upload", 3))
+    if depth > 0 and ctx.containers and ch.chance("w.shared_container", 1, 10):
+        # the very same dict/list object referenced from a second place of the variables
+        return ("shared", ch.draw("w.which_container", len(ctx.containers)))
     k = ch.weighted("w.val", opts)
     if k == "leaf":
         return gen_leaf(ch)
@@ -234,10 +238,41 @@ def gen_value(ctx: WorkCtx, depth: int, in_dict: bool = False):
     if k == "model":
         return gen_model(ctx, min(depth - 1, 2))
     if k == "list":
-        return ("list", [gen_value(ctx, depth - 1, in_dict) for _ in range(ch.draw("w.nlist", 4))])
+        node = ("list", [gen_value(ctx, depth - 1, in_dict) for _ in range(ch.draw("w.nlist", 4))])
+        if not _has_model(node):
+            ctx.containers.append(node)
+        return node
     keys = ["k", "a b", "ünï", "0", "nested", "file", "x.y", "1"]
     n = ch.draw("w.ndict", 4)
-    return ("dict", {keys[(i + ch.draw("w.dkey", 3)) % len(keys)]: gen_value(ctx, depth - 1, True) for i in range(n)})
+    node = ("dict", {keys[(i + ch.draw("w.dkey", 3)) % len(keys)]: gen_value(ctx, depth - 1, True) for i in range(n)})
+    ctx.containers.append(node)
+    return node
+
+
+def _has_upload(node) -> bool:
+    if node[0] == "upload":
+        return True
+    if node[0] == "list":
+        return any(_has_upload(x) for x in node[1])
+    if node[0] == "dict":
+        return any(_has_upload(x) for x in node[1].values())
+    if node[0] == "model":
+        return any(_has_upload(x) for x in node[2].values())
+    return False
+
+
+def _refs_upload_container(spec) -> bool:
+    return any(_has_upload(c) for c in spec.get("containers") or [])
+
+
+def _has_model(node) -> bool:
+    if node[0] == "model":
+        return True
+    if node[0] == "list":
+        return any(_has_model(x) for x in node[1])
+    if node[0] == "dict":
+        return any(_has_model(x) for x in node[1].values())
+    return False
 
 
 def gen_kwargs(ch: Choices, multipart_possible: bool):
@@ -264,6 +299,7 @@ def gen_call(ctx: WorkCtx, allow_uploads=True):
     """One call spec."""
     ch = ctx.ch
     ctx.allow_uploads = allow_uploads
+    ctx.containers = []
     via = ch.weighted("w.via", [("execute", 6), ("get_item", 1), ("list_items", 1), ("ping", 1),
                                 ("create_item", 2), ("do_upload", 2 if allow_uploads else 0), ("search_now", 1)])
     before = ctx.n_upload_refs
@@ -308,7 +344,8 @@ def gen_call(ctx: WorkCtx, allow_uploads=True):
             a["files"] = ("list", [ctx.upload_node() if ch.chance("w.du.f", 2, 3) else ("none",)
                                    for _ in range(ch.draw("w.du.n", 4))])
         spec["args"] = a
-    spec["multipart"] = ctx.n_upload_refs > before
+    spec["containers"] = list(ctx.containers)
+    spec["multipart"] = ctx.n_upload_refs > before or _refs_upload_container(spec)
     spec["kw"] = gen_kwargs(ch, spec["multipart"])
     return spec
 
@@ -316,7 +353,25 @@ def gen_call(ctx: WorkCtx, allow_uploads=True):
 # ------------------------------------------------------------------------------------
 # instantiate a spec against a generated package
 
-def instantiate(node, N: Names, uploads_spec, upload_objs: Dict[int, Any]):
+def instantiate(node, N: Names, uploads_spec, upload_objs: Dict[int, Any], containers=None, built=None):
+    k = node[0]
+    if containers is not None and k in ("list", "dict"):
+        for i, cnode in enumerate(containers):
+            if cnode is node:
+                if i in built:
+                    return built[i]
+                val = _instantiate(node, N, uploads_spec, upload_objs, containers, built)
+                built[i] = val
+                return val
+    if k == "shared":
+        i = node[1]
+        if i not in built:
+            built[i] = _instantiate(containers[i], N, uploads_spec, upload_objs, containers, built)
+        return built[i]
+    return _instantiate(node, N, uploads_spec, upload_objs, containers, built)
+
+
+def _instantiate(node, N: Names, uploads_spec, upload_objs: Dict[int, Any], containers=None, built=None):
     k = node[0]
     if k in ("int", "float", "bool", "str"):
         return node[1]
@@ -337,9 +392,9 @@ def instantiate(node, N: Names, uploads_spec, upload_objs: Dict[int, Any]):
     if k == "uuid":
         return uuid.UUID(node[1])
     if k == "list":
-        return [instantiate(x, N, uploads_spec, upload_objs) for x in node[1]]
+        return [instantiate(x, N, uploads_spec, upload_objs, containers, built) for x in node[1]]
     if k == "dict":
-        return {kk: instantiate(v, N, uploads_spec, upload_objs) for kk, v in node[1].items()}
+        return {kk: instantiate(v, N, uploads_spec, upload_objs, containers, built) for kk, v in node[1].items()}
     if k == "upload":
         uid = node[1]
         if uid not in upload_objs:
@@ -353,7 +408,7 @@ def instantiate(node, N: Names, uploads_spec, upload_objs: Dict[int, Any]):
         kwargs = {}
         for f, v in fields.items():
             key = ALIASES.get(f, f) if by_alias else f
-            kwargs[key] = instantiate(v, N, uploads_spec, upload_objs)
+            kwargs[key] = instantiate(v, N, uploads_spec, upload_objs, containers, built)
         return getattr(N, cls)(**kwargs)
     raise ValueError(k)
 
@@ -377,9 +432,11 @@ def call_inputs(spec, N: Names, uploads_spec):
     objs: Dict[int, Any] = {}
     if spec["via"] == "execute":
         v = spec["vars"]
-        variables = None if v is None else {k: instantiate(n, N, uploads_spec, objs) for k, n in v.items()}
+        built: Dict[int, Any] = {}
+        variables = None if v is None else {k: instantiate(n, N, uploads_spec, objs, spec.get("containers") or [], built) for k, n in v.items()}
         return spec["query"], spec["opname"], variables, None, objs
-    args = {k: instantiate(n, N, uploads_spec, objs) for k, n in spec["args"].items()}
+    built2: Dict[int, Any] = {}
+    args = {k: instantiate(n, N, uploads_spec, objs, spec.get("containers") or [], built2) for k, n in spec["args"].items()}
     op = GEN_OPS[spec["via"]]
     return generated_query(op), op, dict(args), args, objs
 
